@@ -84,6 +84,9 @@ type pureCase struct {
 	From2  int        `json:"from2"`
 	K      [3]keySpec `json:"k"`
 	Class  uint8      `json:"class"` // an arbitrary class byte for TKeyClassRange
+	// Skip is only set by saved replays: instance-range functions ("KeyRange", "DataInstanceKeyRange") left unchecked so
+	// that the reproduction of a finding in the next function is not hidden behind the first one.
+	Skip []string `json:"skip,omitempty"`
 }
 
 var families = map[string][]string{
@@ -516,7 +519,7 @@ func instSuffix(inst uint32) string {
 	return ""
 }
 
-func checkOne(b *built, class uint8) error {
+func checkOne(b *built, class uint8, skip map[string]bool) error {
 	s, k, tk, ctx := b.spec, b.key, b.tk, b.ctx
 	desc := fmt.Sprintf("%+v tkey %x key %x", s, []byte(tk), []byte(k))
 	if !k.IsDataKey() {
@@ -586,11 +589,11 @@ func checkOne(b *built, class uint8) error {
 	}
 	// instance ranges
 	minI, maxI := ctx.KeyRange()
-	if !within(k, minI, maxI) {
+	if !within(k, minI, maxI) && !skip["KeyRange"] {
 		return stats.Violf("C06/DataContext.KeyRange/own-key-outside"+instSuffix(s.Inst), "range [%x, %x]; %s", []byte(minI), []byte(maxI), desc)
 	}
 	minD, maxD := storage.DataInstanceKeyRange(dvid.InstanceID(s.Inst))
-	if !within(k, minD, maxD) {
+	if !within(k, minD, maxD) && !skip["DataInstanceKeyRange"] {
 		return stats.Violf("C06/DataInstanceKeyRange/own-key-outside"+instSuffix(s.Inst), "range [%x, %x]; %s", []byte(minD), []byte(maxD), desc)
 	}
 	minA, maxA := storage.DataKeyRange()
@@ -681,8 +684,12 @@ func checkPure(c pureCase) error {
 		if err != nil {
 			return err
 		}
+		skip := map[string]bool{}
+		for _, s := range c.Skip {
+			skip[s] = true
+		}
 		for _, b := range bs {
-			if err := checkOne(b, c.Class); err != nil {
+			if err := checkOne(b, c.Class, skip); err != nil {
 				return err
 			}
 		}
